@@ -325,3 +325,100 @@ Definition nobs_eqb (a b : nobservation) : bool :=
   let '(t2, d2, k2, (v2, w2)) := b in
   list_eqb (prod_eqb N.eqb N.eqb) t1 t2 && list_eqb Nat.eqb d1 d2
   && list_eqb (list_eqb N.eqb) k1 k2 && N.eqb v1 v2 && N.eqb w1 w2.
+
+(* ===================================================================== *)
+(* lowering of sync/atomic: which LLVM instruction, with which ordering   *)
+(* ===================================================================== *)
+(* T2 obligation: props/C11/check.py lets the working tree's cl+ssa emit the IR of a
+   generated package that calls every sync/atomic function (and of package sync/atomic
+   itself for the typed methods), extracts every load atomic / store atomic / atomicrmw /
+   cmpxchg instruction syntactically and evaluates [lowering_ok] on it inside Coq. *)
+Inductive aop := ALoad | AStore | AAdd | ASwap | ACas | AAnd | AOr.
+Inductive awidth := W32 | W64 | WPtr.          (* i32, i64, ptr operand *)
+Inductive ainstr := ILoadAtomic | IStoreAtomic | IRmwAdd | IRmwXchg | IRmwAnd | IRmwOr | ICmpXchg.
+Inductive aord := ONotAtomic | OUnordered | OMonotonic | OAcquire | ORelease | OAcqRel | OSeqCst.
+
+(* every operation is the single LLVM instruction of that name.  Every ordering (both
+   orderings of cmpxchg) is seq_cst: Go's sync/atomic operations appear in one total
+   order. *)
+Definition atomic_lowering (o : aop) (w : awidth) : ainstr * aord :=
+  (match o with
+   | ALoad => ILoadAtomic | AStore => IStoreAtomic | AAdd => IRmwAdd | ASwap => IRmwXchg
+   | ACas => ICmpXchg | AAnd => IRmwAnd | AOr => IRmwOr
+   end, OSeqCst).
+
+(* In the IR printed for a main package atomicrmw and / or arrive already expanded into
+   the equivalent compare-exchange loop (load; and/or; cmpxchg seq_cst seq_cst; retry)
+   - the form LLVM's AtomicExpand pass gives them; package sync/atomic itself shows the
+   single instruction.  Both forms are accepted for And/Or. *)
+Definition expanded_form (i : ainstr) : option ainstr :=
+  match i with IRmwAnd | IRmwOr => Some ICmpXchg | _ => None end.
+
+(* the operations Go's API has: no Add/And/Or on unsafe.Pointer *)
+Definition api_has (o : aop) (w : awidth) : bool :=
+  match o, w with
+  | (AAdd | AAnd | AOr), WPtr => false
+  | _, _ => true
+  end.
+
+Definition all_aops : list aop := [ALoad; AStore; AAdd; ASwap; ACas; AAnd; AOr].
+Definition all_awidths : list awidth := [W32; W64; WPtr].
+Definition api_keys : list (aop * awidth) :=
+  filter (fun k => api_has (fst k) (snd k))
+         (flat_map (fun o => map (fun w => (o, w)) all_awidths) all_aops).
+
+Definition aop_eqb (a b : aop) : bool :=
+  match a, b with
+  | ALoad, ALoad | AStore, AStore | AAdd, AAdd | ASwap, ASwap | ACas, ACas | AAnd, AAnd | AOr, AOr => true
+  | _, _ => false
+  end.
+Definition awidth_eqb (a b : awidth) : bool :=
+  match a, b with W32, W32 | W64, W64 | WPtr, WPtr => true | _, _ => false end.
+Definition ainstr_eqb (a b : ainstr) : bool :=
+  match a, b with
+  | ILoadAtomic, ILoadAtomic | IStoreAtomic, IStoreAtomic | IRmwAdd, IRmwAdd | IRmwXchg, IRmwXchg
+  | IRmwAnd, IRmwAnd | IRmwOr, IRmwOr | ICmpXchg, ICmpXchg => true
+  | _, _ => false
+  end.
+Definition aord_eqb (a b : aord) : bool :=
+  match a, b with
+  | ONotAtomic, ONotAtomic | OUnordered, OUnordered | OMonotonic, OMonotonic | OAcquire, OAcquire
+  | ORelease, ORelease | OAcqRel, OAcqRel | OSeqCst, OSeqCst => true
+  | _, _ => false
+  end.
+
+(* one Go function: its operation and operand width, and the atomic instructions
+   found in its IR: (instruction, operand width, orderings written on it) *)
+Definition observed_fn : Type := aop * awidth * list (ainstr * awidth * list aord).
+
+(* pw: the integer width of a pointer on the target.  cmpxchg and atomicrmw on an
+   unsafe.Pointer may be emitted on the pointer-sized integer (ptrtoint/inttoptr around
+   it), so for a WPtr operation an operand of width pw is accepted as well. *)
+Definition width_ok (pw w' w : awidth) : bool :=
+  awidth_eqb w' w || match w with WPtr => awidth_eqb w' pw | _ => false end.
+
+Definition instr_ok (i i0 : ainstr) : bool :=
+  ainstr_eqb i i0 || match expanded_form i0 with Some j => ainstr_eqb i j | None => false end.
+
+Definition lowering_ok (pw : awidth) (e : observed_fn) : bool :=
+  let '(o, w, ins) := e in
+  let (i0, ord0) := atomic_lowering o w in
+  match ins with
+  | [] => false                                   (* the atomic instruction is gone *)
+  | _ => forallb (fun x : ainstr * awidth * list aord =>
+                    let '(i, w', ords) := x in
+                    instr_ok i i0 && width_ok pw w' w &&
+                    match ords with [] => false | _ => forallb (aord_eqb ord0) ords end) ins
+  end.
+
+Fixpoint bad_lowerings (pw : awidth) (n : N) (l : list observed_fn) : list N :=
+  match l with
+  | [] => []
+  | e :: l' => if lowering_ok pw e then bad_lowerings pw (N.succ n) l' else n :: bad_lowerings pw (N.succ n) l'
+  end.
+
+(* keys of the API that no generated function exercised *)
+Definition missing_keys (l : list observed_fn) : list (aop * awidth) :=
+  filter (fun k => negb (existsb (fun e : observed_fn =>
+                                    aop_eqb (fst (fst e)) (fst k) && awidth_eqb (snd (fst e)) (snd k)) l))
+         api_keys.
